@@ -36,18 +36,24 @@ local function enumup(id, lvl, phase, f)
   end
   return j
 end
-function Q(id)
+function Q(id, extra)
   if seen[id] then return 1 end
   seen[id] = true
+  if extra then
+    local inf = getinfo(extra + 1, "Sl")
+    if inf then RI(id, extra, inf.what, inf.currentline, inf.linedefined, inf.lastlinedefined) end
+  end
   for lvl = 1, 2 do
     local inf = getinfo(lvl + 1, "Slf")
     if inf == nil then break end
     RI(id, lvl, inf.what, inf.currentline, inf.linedefined, inf.lastlinedefined)
-    local byf = getinfo(inf.func, "Sl")
-    RF(id, lvl, byf.linedefined, byf.lastlinedefined, byf.currentline)
+    if inf.func then
+      local byf = getinfo(inf.func, "Sl")
+      RF(id, lvl, byf.linedefined, byf.lastlinedefined, byf.currentline)
+    end
     if inf.what ~= "G" then
       enum(id, lvl, 0)
-      enumup(id, lvl, 0, inf.func)
+      if inf.func then enumup(id, lvl, 0, inf.func) end
     end
   end
   return 1
